@@ -29,6 +29,37 @@ def direct_rater(reg, ts, names, lda):
     return IndentationRater(regressor=cl(**copy.deepcopy(kw)), training_set=ts, names=names, lda=lda)
 
 
+def sklearn_reference(reg, ts, lda, idnt):
+    """the rating recomputed without IndentationRater: scikit-learn pipeline built from the documented rules
+    (tree-based regressors: no scaler, no LDA by default; others: scaler, LDA unless lda is False), regressor class and
+    keyword arguments from the live table, occurrence weights 1/count(class) normalised; None when the rating is not
+    a prediction (a binary criterion fails or a feature is undefined)"""
+    from sklearn.pipeline import make_pipeline
+    from sklearn.preprocessing import StandardScaler
+    from sklearn.discriminant_analysis import LinearDiscriminantAnalysis
+    from nanite.rate import rater as nrater
+    from nanite.rate import regressors
+    from nanite.rate.features import IndentationFeatures
+    X, y = np.array(ts[0], dtype=float), np.array(ts[1], dtype=float)
+    cl, kw = nrater.reg_dict[reg]
+    tree = cl.__name__ in regressors.reg_trees
+    use_lda = (not tree) if lda is None else bool(lda)
+    steps = ([] if tree else [StandardScaler()]) + ([LinearDiscriminantAnalysis()] if use_lda else []) + \
+        [cl(**copy.deepcopy(kw))]
+    w = np.zeros(len(y))
+    for v in np.unique(y):
+        w[y == v] = 1.0 / np.sum(y == v)
+    w /= w.sum()
+    pipe = make_pipeline(*steps)
+    pipe.fit(X, y, **{pipe.steps[-1][0] + "__sample_weight": w})
+    with np.errstate(all="ignore"):
+        b_ = IndentationFeatures.compute_features(idnt, which_type="binary")
+        c_ = IndentationFeatures.compute_features(idnt, which_type="continuous")
+    if np.any(np.asarray(b_) == 0) or np.any(np.isnan(b_)) or np.any(np.isnan(c_)):
+        return None
+    return float(pipe.predict(np.atleast_2d(c_))[0])
+
+
 def state_classes(cid):
     """(label, curve) for every reachable state class"""
     out = []
@@ -95,7 +126,7 @@ def run(ctx):
                       directed=lambda name: name.startswith(("rate", "pp(P1)", "fit()", "fit(weight", "set")))
     from nanite.rate import rater as nrater
     from nanite.rate import IndentationRater
-    regs = ["Extra Trees", "none", "Decision Tree"] if ctx.tier == "quick" else \
+    regs = ["Extra Trees", "none", "Decision Tree", "SVR (linear kernel)"] if ctx.tier == "quick" else \
         list(nrater.reg_names) + ["none", "NONE"]
     import tempfile
     import pathlib
@@ -108,12 +139,18 @@ def run(ctx):
         for j, n in enumerate(names):
             np.savetxt(tdir / f"train_{n}.txt", X[::7, j], fmt="%.2e")
         np.savetxt(tdir / "train_response.txt", y[::7], fmt="%.2e")
-        tsets = [("zef18", "zef18"), ("user-dir", str(tdir)), ("in-memory", (X[::5].copy(), y[::5].copy()))]
+        tsets = [("zef18", "zef18"), ("user-dir", str(tdir)), ("in-memory", (X[::5].copy(), y[::5].copy())),
+                 # ratings are the integers 0..10: a response array of integer type is the same training set
+                 ("in-memory-int-response", (X[::5].copy(), y[::5].astype(int)))]
         for label, idnt in state_classes(2):
             for reg in regs:
                 for tlabel, ts in (tsets if ctx.tier != "quick" else tsets[:1] + tsets[2:]):
                     for nm, lda in ((None, None), (["feat_con_apr_sum", "feat_con_idt_sum", "feat_bin_size"], None),
-                                    (None, False)):
+                                    (None, False), (None, True)):
+                        if lda is True and not reg.startswith("SVR"):
+                            continue
+                        if reg.startswith("SVR") and ctx.tier == "quick" and not isinstance(ts, tuple):
+                            continue
                         if isinstance(ts, tuple) and nm is not None:
                             continue
                         meta = {"state": label, "regressor": reg, "training_set": tlabel, "names": nm, "lda": lda}
@@ -146,6 +183,13 @@ def run(ctx):
                                 if c != a:
                                     ctx.violation("differs-from-standalone-rater",
                                                   f"rate_quality gives {a}, the standalone rater {c}", {"input": meta})
+                                if isinstance(ts, tuple) and nm is None:
+                                    ref = sklearn_reference(reg, ts, lda, idnt)
+                                    if ref is not None and abs(ref - a) > 1e-9 * max(1.0, abs(ref)):
+                                        ctx.violation("differs-from-scikit-learn-reference",
+                                                      f"rate_quality({reg}, lda={lda}) gives {a!r}; the documented "
+                                                      f"pipeline built directly with scikit-learn gives {ref!r}",
+                                                      {"input": meta, "expected": ref, "observed": a})
                                 c2 = direct_rater(reg, copy.deepcopy(ts), nm, lda).rate(datasets=idnt)[0]
                                 if c2 != a:
                                     ctx.violation("differs-from-directly-built-rater",
